@@ -70,6 +70,14 @@ CHECKS.update({
          "DESIGN.md §4 C07"),
 })
 
+CHECKS.update({
+ "C06": ("exploration",
+         "deterministic simulation with a byzantine client and proposer: seeded message trees nesting MsgExec/MsgGrant to depth <= 9 and width <= 4 with a blocked message at a seeded position, on every route selector (plain, dynamic-fee, Web3/EIP-712, Ethereum) and with seeded extension-option lists; correctly signed, fee paid, delivered without CheckTx; independent tree classifier + no-effect / no-ethereum_tx-event oracle",
+         "An independent walker classifies each generated tx from its own description (never from the ante handler); a tx in the forbidden class must return a non-zero code, leave the fingerprint of all known accounts and the fee collector unchanged and emit no ethereum_tx event; ethereum_tx events may only appear on the Ethereum route. Positive controls (allowed nested exec, plain eth tx) must succeed so that the batch is not vacuous.",
+         "The property is a function of one transaction: the simulator contributes the adversarial actor and the end-to-end observable, not schedule exploration (stated caveat, DESIGN.md §4 C06). Trees deeper than the implementation's nesting cap are rejected by it, which the oracle accepts (one-sided).",
+         "DESIGN.md §4 C06"),
+})
+
 NOT_YET = {}  # id -> reason (filled below)
 NA = {
  "C18": "pure function of one input (wrap -> encode -> decode -> unwrap of one Ethereum tx): no schedule, clock, fault, crash or second party can change its result, so deterministic simulation with fault injection has nothing to decide; see DESIGN.md §4 C18",
